@@ -281,6 +281,9 @@ impl Table for DisplacedTable {
     fn clear(&mut self) {
         self.uf.reset();
         self.displaced.clear();
+        // `lookup_table` maps displaced ids to positions in `displaced`: stale entries
+        // would index past the end of the (now empty) vector.
+        self.lookup_table.clear();
     }
 
     fn all(&self) -> Subset {
